@@ -2649,7 +2649,7 @@ def run(env, res):
     t0 = time.time()
     entered = set()
     first_fail = None
-    budget = 40 if tier == 'quick' else 400
+    budget = 36 if tier == 'quick' else 400
     order = list(range(len(cases)))
     rng.shuffle(order)          # a budget cut drops a random subset, not the tail of the alphabet
     if focus:
